@@ -27,6 +27,11 @@ abbrev Range (α : Type) := Option α
 def marginalCdfRanges {α} (n : Nat) (x : α) : List (Range α) :=
   List.replicate (n - 1) none ++ [some x]
 
+/-- the ranges `marginal_pdf(x, dim)` hands to nquad: every OTHER variable over `(0, ∞)` (the requested
+one is not integrated: it is the extra argument `x`) -/
+def marginalPdfRanges {α} (n : Nat) : List (Range α) :=
+  List.replicate (n - 1) none
+
 /-- the ranges `cdf(x)` hands to nquad -/
 def cdfRanges {α} (x : List α) : List (Range α) := x.map some
 
